@@ -113,6 +113,18 @@ _RE_KF = re.compile(r'"KF-HIT", "([^"]+)"')
 
 
 def run_tlc(scratch, module_dir, module, cfg, workers=16, timeout=900, env_extra=None, extra_args=None, heap=None):
+    """Run TLC (retrying once on an internal TLC/IO error, seen under heavy CPU oversubscription:
+    'when reading pool file ... No such file')."""
+    try:
+        return _run_tlc(scratch, module_dir, module, cfg, workers, timeout, env_extra, extra_args)
+    except Broken as e:
+        if "timed out" in str(e):
+            raise
+        log("TLC failed internally, retrying once: %s" % str(e).splitlines()[-1][:200])
+        return _run_tlc(scratch, module_dir, module, cfg, max(1, workers // 2), timeout, env_extra, extra_args)
+
+
+def _run_tlc(scratch, module_dir, module, cfg, workers, timeout, env_extra, extra_args):
     """Run TLC; returns dict(ok, states, distinct, violated, out, wall)."""
     d = _spec_copy(scratch, module_dir)
     meta = tempfile.mkdtemp(prefix="meta-", dir=scratch.dir)
